@@ -4,7 +4,8 @@
    satisfies c beta = all those differences have the right sign (>= 0 resp. <= 0);
    con_form c beta v = sum over the positions violating IN beta of the squared differences OF v. *)
 From Coq Require Import List Reals.
-From PG Require Import Base.Ops Base.Vec Model.Constraints Proofs.VecR Proofs.C05 Proofs.C05Bound Proofs.C05Fibres.
+From PG Require Import Base.Ops Base.Vec Model.BSpline Model.Constraints Proofs.VecR Proofs.C03Basis Proofs.C03Row Proofs.C05 Proofs.C05Bound Proofs.C05Fibres
+  Proofs.C05ShapeDeriv Proofs.C05ShapeSum Proofs.C05ShapeModel Proofs.C05ShapeMono Proofs.C05ShapeConvex Proofs.C05ShapeFinal.
 Import ListNotations.
 Open Scope R_scope.
 
@@ -121,9 +122,109 @@ Theorem C05_violation_bound : forall m B w2 z SP cons clam cl2 beta,
 Proof. exact violation_bound_term. Qed.
 Print Assumptions C05_violation_bound.
 
-(* C05_coef_to_function_partial (NOT PROVED HERE): "coefficients satisfying the constraint (up to v) give a spline function with
-   the requested shape (up to d*v*max(1,delta/h)^d on a grid of spacing delta), inside the knot range and, for spline order >= 1,
-   on the linear continuation beyond it".  It needs the B-spline derivative formula (C03_slope_is_derivative, owned by the C03
-   model).  Until then the function-level shape is checked by correspondence on every converged fit (harness/props/c05.py,
-   check_function_shape), and it is REFUTED by a concrete fit for tensor marginals when the OTHER variable is extrapolated
-   (candidate finding S16, harness/props/c05.py s16_witness). *)
+(* ==================================================================================================================
+   Function level.  Objects: the real instance of the C03 model coq/Model/BSpline.v (one row of pygam.utils.b_spline_basis):
+     spline_at ek0 ek1 n k c x = c . bspline_row ek0 ek1 n k false x      (the fitted partial function of a spline term, 0 if n < k+1)
+     sval n k c xs             = c . bspline_scaled n k false xs          (same, in the scaled coordinate xs = (x-min ek)/(max ek-min ek))
+     crow n k j xs             = the Cox-de Boor polynomial piece j (valid on the knot interval [t_j, t_{j+1}]), t = knot Rfops n k
+   has_shape cn f (Proofs/C05ShapeFinal.v): CMonoInc: x <= y -> f x <= f y;  CMonoDec: x <= y -> f y <= f x;
+     CConvex: x <= y <= z -> (f y - f x)(z - y) <= (f z - f y)(y - x)  (secant slopes non-decreasing, cross-multiplied);  CConcave dually.
+   All statements hold for EVERY real x: inside the knot range and on the code's linear continuation beyond it.
+   ================================================================================================================== *)
+
+(* 1. B-spline derivative formula for the Cox-de Boor recursion of the model, over ANY strictly increasing knots t, any
+      order-0 row h0, any order k >= 1, every real x (derivable_pt_lim = the standard library's derivative relation) *)
+Theorem C05_bspline_derivative_formula : forall t : nat -> R, (forall i, t i < t (S i)) -> forall (h0 : nat -> R) k i x, (1 <= k)%nat ->
+  derivable_pt_lim (fun x => Bix Rfops t h0 x k i) x
+    (INR k * (Bix Rfops t h0 x (pred k) i / (t (i + k)%nat - t i) - Bix Rfops t h0 x (pred k) (S i) / (t (i + S k)%nat - t (S i)))).
+Proof. exact Bix_derivative. Qed.
+Print Assumptions C05_bspline_derivative_formula.
+
+(* ... for the model's (uniform, spacing h = stepR n k = 1/(n-k)) spline: d/dx sum_i c_i B_{i,k} = sum_i (c_i - c_{i-1})/h B_{i,k-1}
+   for every polynomial piece j at every real x ... *)
+Theorem C05_spline_piece_derivative : forall n k, (1 <= k < n)%nat -> forall c, length c = n -> forall j x, (k <= j < n)%nat ->
+  derivable_pt_lim (fun x => sumf (fun i => nth i c 0 * Bix Rfops (knot Rfops n k) (ind j) x k i) 0 n) x
+    (sumf (fun i => (nth i c 0 - nth (pred i) c 0) / stepR n k * Bix Rfops (knot Rfops n k) (ind j) x (pred k) i) 1 (n - 1)).
+Proof. exact piece_derivative_formula. Qed.
+Print Assumptions C05_spline_piece_derivative.
+(* ... hence for the spline FUNCTION at every x strictly between two knots (all orders k >= 1).
+   _partial: two-sided differentiability AT the knots for k >= 2 is not stated (the shape theorems below do not need it: the
+   pieces are glued by continuity of the function and, for k >= 2, of the derivative pieces). *)
+Theorem C05_spline_derivative_between_knots_partial : forall n k c j x, (1 <= k < n)%nat -> length c = n -> (k <= j < n)%nat ->
+  knot Rfops n k j < x < knot Rfops n k (S j) ->
+  derivable_pt_lim (sval n k c) x
+    (sumf (fun i => (nth i c 0 - nth (pred i) c 0) / stepR n k * Bix Rfops (knot Rfops n k) (ind j) x (pred k) i) 1 (n - 1)).
+Proof. exact sval_derivative_between_knots. Qed.
+Print Assumptions C05_spline_derivative_between_knots_partial.
+
+(* 2. coefficients in the zero set of a constraint => the fitted FUNCTION has the promised shape at all real x, for every
+      spline order k >= 1, every size n > k, any edge knots (replaces the former C05_coef_to_function_partial) *)
+Theorem C05_coef_to_function : forall cn ek0 ek1 n k c, (1 <= k < n)%nat -> length c = n -> satisfies cn c ->
+  has_shape cn (spline_at ek0 ek1 n k c).
+Proof. exact coef_to_function. Qed.
+Print Assumptions C05_coef_to_function.
+
+(* the combination with the matrix-level theorems: quadratic form of the constraint matrix = 0 => shape of the function *)
+Theorem C05_constraint_zero_implies_function_shape : forall cn ek0 ek1 n k c, (1 <= k < n)%nat -> length c = n ->
+  quadR (con_matrix Rrops n c cn) c = 0 -> has_shape cn (spline_at ek0 ek1 n k c).
+Proof. exact constraint_zero_to_function. Qed.
+Print Assumptions C05_constraint_zero_implies_function_shape.
+Theorem C05_term_constraint_zero_implies_function_shape : forall cons clam cl2 ek0 ek1 n k c,
+  (1 <= k < n)%nat -> length c = n -> 0 < clam -> 0 <= cl2 ->
+  quadR (term_constraints Rrops n c cons clam cl2) c = 0 -> Forall (fun cn => has_shape cn (spline_at ek0 ek1 n k c)) cons.
+Proof. exact term_constraint_zero_to_function. Qed.
+Print Assumptions C05_term_constraint_zero_implies_function_shape.
+
+(* the four shapes spelled out in the scaled coordinate, and the midpoint forms *)
+Theorem C05_monotone_inc_function : forall n k c, (1 <= k < n)%nat -> length c = n -> Forall (fun d => 0 <= d) (diffR c) ->
+  forall x y, x <= y -> sval n k c x <= sval n k c y.
+Proof. exact spline_nondecreasing. Qed.
+Print Assumptions C05_monotone_inc_function.
+Theorem C05_monotone_dec_function : forall n k c, (1 <= k < n)%nat -> length c = n -> Forall (fun d => d <= 0) (diffR c) ->
+  forall x y, x <= y -> sval n k c y <= sval n k c x.
+Proof. exact spline_nonincreasing. Qed.
+Print Assumptions C05_monotone_dec_function.
+Theorem C05_convex_function : forall n k c, (1 <= k < n)%nat -> length c = n -> Forall (fun d => 0 <= d) (diffnR 2 c) ->
+  forall x y z, x <= y -> y <= z -> (sval n k c y - sval n k c x) * (z - y) <= (sval n k c z - sval n k c y) * (y - x).
+Proof. exact spline_convex. Qed.
+Print Assumptions C05_convex_function.
+Theorem C05_concave_function : forall n k c, (1 <= k < n)%nat -> length c = n -> Forall (fun d => d <= 0) (diffnR 2 c) ->
+  forall x y z, x <= y -> y <= z -> (sval n k c z - sval n k c y) * (y - x) <= (sval n k c y - sval n k c x) * (z - y).
+Proof. exact spline_concave. Qed.
+Print Assumptions C05_concave_function.
+Theorem C05_convex_midpoint : forall n k c, (1 <= k < n)%nat -> length c = n -> satisfies CConvex c ->
+  forall x z, sval n k c ((x + z) / 2) <= (sval n k c x + sval n k c z) / 2.
+Proof. exact spline_convex_midpoint. Qed.
+Print Assumptions C05_convex_midpoint.
+Theorem C05_concave_midpoint : forall n k c, (1 <= k < n)%nat -> length c = n -> satisfies CConcave c ->
+  forall x z, (sval n k c x + sval n k c z) / 2 <= sval n k c ((x + z) / 2).
+Proof. exact spline_concave_midpoint. Qed.
+Print Assumptions C05_concave_midpoint.
+
+(* order 0 (step functions; outside the property's quantifier "orders 1..4"): monotone coefficients give a monotone step
+   function INSIDE the knot range (beyond it the order-0 basis row is identically zero; convexity is meaningless for steps) *)
+Theorem C05_order0_monotone_inside : forall ek0 ek1 n c, (0 < n)%nat -> length c = n -> ek0 <> ek1 ->
+  (satisfies CMonoInc c -> forall x y, Rmin ek0 ek1 <= x -> x <= y -> y <= Rmax ek0 ek1 -> spline_at ek0 ek1 n 0 c x <= spline_at ek0 ek1 n 0 c y) /\
+  (satisfies CMonoDec c -> forall x y, Rmin ek0 ek1 <= x -> x <= y -> y <= Rmax ek0 ek1 -> spline_at ek0 ek1 n 0 c y <= spline_at ek0 ek1 n 0 c x).
+Proof. exact (fun ek0 ek1 n c Hn Hc Hne => conj (coef_to_function_order0 ek0 ek1 n c Hn Hc Hne) (coef_to_function_order0_dec ek0 ek1 n c Hn Hc Hne)). Qed.
+Print Assumptions C05_order0_monotone_inside.
+
+(* 3. (closes the _partial note of Props/C03.v after C03_extrap_linear_continuous) the slopes g0, g1 of the code's linear
+      continuation are, column by column, the derivatives at the boundary of the interior polynomial pieces adjacent to it *)
+Theorem C05_continuation_slope_is_boundary_derivative : forall n k, (1 <= k < n)%nat ->
+  let t := knot Rfops n k in
+  exists g0 g1 : list R,
+    (forall xs, xs < 0 -> bspline_scaled Rfops n k false xs = Some (vaddR (vscaleR xs g0) (crow n k k 0))) /\
+    (forall xs, 1 < xs -> bspline_scaled Rfops n k false xs = Some (vaddR (vscaleR (xs - 1) g1) (crow n k (n - 1) 1))) /\
+    (forall xs, 0 <= xs < t (S k) -> bspline_scaled Rfops n k false xs = Some (crow n k k xs)) /\
+    (forall xs, t (n - 1)%nat <= xs <= 1 -> bspline_scaled Rfops n k false xs = Some (crow n k (n - 1) xs)) /\
+    (forall i, (i < n)%nat ->
+       derivable_pt_lim (fun x => nth i (crow n k k x) 0) 0 (nth i g0 0) /\
+       derivable_pt_lim (fun x => nth i (crow n k (n - 1) x) 0) 1 (nth i g1 0)).
+Proof. exact continuation_slope. Qed.
+Print Assumptions C05_continuation_slope_is_boundary_derivative.
+
+(* Concrete instances of the hypotheses and conclusions: Proofs/C05ShapeFinal.v shape_hypotheses_example, shape_values_example.
+   STILL _partial at function level: tensor terms.  Inside the knot range of the OTHER marginal a constrained marginal's
+   shape follows from the above because the other marginal's basis values are non-negative (not formalised); beyond that range
+   it is FALSE (candidate finding S16, harness/props/c05.py s16_witness).  Periodic ('cp') bases are not covered. *)
